@@ -279,6 +279,8 @@ struct Slot {
     seq: AtomicU64,
     ep: AtomicUsize,
     limit_ms: AtomicU64,
+    /// kernel thread id of the worker using this slot (for its CPU clock)
+    tid: AtomicU64,
     started: Mutex<Option<Instant>>,
     input: Mutex<Vec<u8>>,
 }
@@ -294,6 +296,7 @@ fn slots() -> &'static Vec<Slot> {
                 seq: AtomicU64::new(0),
                 ep: AtomicUsize::new(0),
                 limit_ms: AtomicU64::new(2000),
+                tid: AtomicU64::new(0),
                 started: Mutex::new(None),
                 input: Mutex::new(Vec::new()),
             })
@@ -304,8 +307,31 @@ fn slots() -> &'static Vec<Slot> {
 thread_local! {
     static MY_SLOT: usize = {
         static NEXT: AtomicUsize = AtomicUsize::new(0);
-        NEXT.fetch_add(1, Ordering::SeqCst) % NSLOTS
+        let i = NEXT.fetch_add(1, Ordering::SeqCst) % NSLOTS;
+        slots()[i].tid.store(my_tid(), Ordering::SeqCst);
+        i
     };
+}
+
+/// Kernel thread id of the calling thread (0 if /proc is not available).
+fn my_tid() -> u64 {
+    std::fs::read_link("/proc/thread-self")
+        .ok()
+        .and_then(|p| p.file_name().and_then(|n| n.to_str()).and_then(|n| n.parse().ok()))
+        .unwrap_or(0)
+}
+
+/// (CPU milliseconds consumed so far, scheduler state) of a thread or process, from its
+/// /proc stat file.  Time limits are judged on CPU time consumed by the call, so that a loaded
+/// machine (other checks running in parallel) cannot turn a slow call into a reported hang.
+fn proc_cpu(path: &str) -> Option<(u64, char)> {
+    let s = std::fs::read_to_string(path).ok()?;
+    let rest = &s[s.rfind(')')? + 1..];
+    let f: Vec<&str> = rest.split_whitespace().collect();
+    let state = f.first()?.chars().next()?;
+    let ut: u64 = f.get(11)?.parse().ok()?;
+    let st: u64 = f.get(12)?.parse().ok()?;
+    Some(((ut + st) * 10, state))
 }
 
 static JOURNAL_INPUTS: AtomicBool = AtomicBool::new(false);
@@ -358,32 +384,75 @@ fn input_json(input: &[u8]) -> Value {
 }
 
 fn start_watchdog(run: &'static Run) {
-    std::thread::spawn(move || loop {
-        std::thread::sleep(Duration::from_millis(200));
-        for s in slots().iter() {
-            if !s.busy.load(Ordering::SeqCst) {
-                continue;
-            }
-            let seq = s.seq.load(Ordering::SeqCst);
-            let started = *s.started.lock().unwrap();
-            let limit = Duration::from_millis(s.limit_ms.load(Ordering::Relaxed));
-            if let Some(st) = started {
-                if st.elapsed() > limit && s.busy.load(Ordering::SeqCst) && s.seq.load(Ordering::SeqCst) == seq {
-                    let input = s.input.lock().unwrap().clone();
-                    let ep = s.ep.load(Ordering::Relaxed);
-                    let mut t = Tally::new();
-                    t.states += 1;
-                    t.evals += 1;
-                    t.outcome("hang");
-                    t.violation(Violation::new(
-                        "call",
-                        json!({"entry": EPS[ep].0, "input": input_json(&input)}),
-                        json!(format!("returns within {} ms", limit.as_millis())),
-                        json!(format!("still running after {} ms", st.elapsed().as_millis())),
-                        "an entry point did not return promptly",
-                    ));
-                    run.merge(t);
-                    run.finish();
+    struct Seen {
+        seq: u64,
+        cpu0: u64,
+        last_cpu: u64,
+        first: Instant,
+        idle_polls: u64,
+    }
+    const POLL_MS: u64 = 200;
+    std::thread::spawn(move || {
+        let mut seen: Vec<Option<Seen>> = (0..NSLOTS).map(|_| None).collect();
+        loop {
+            std::thread::sleep(Duration::from_millis(POLL_MS));
+            for (i, s) in slots().iter().enumerate() {
+                if !s.busy.load(Ordering::SeqCst) {
+                    seen[i] = None;
+                    continue;
+                }
+                let seq = s.seq.load(Ordering::SeqCst);
+                let tid = s.tid.load(Ordering::SeqCst);
+                let now = if tid != 0 { proc_cpu(&format!("/proc/self/task/{}/stat", tid)) } else { None };
+                let fresh = !matches!(&seen[i], Some(e) if e.seq == seq);
+                if fresh {
+                    let c = now.map(|x| x.0).unwrap_or(0);
+                    seen[i] = Some(Seen { seq, cpu0: c, last_cpu: c, first: Instant::now(), idle_polls: 0 });
+                    continue;
+                }
+                let e = seen[i].as_mut().unwrap();
+                let limit = s.limit_ms.load(Ordering::Relaxed);
+                let verdict: Option<String> = match now {
+                    Some((cpu, state)) => {
+                        let used = cpu.saturating_sub(e.cpu0);
+                        if state != 'R' && cpu == e.last_cpu {
+                            e.idle_polls += 1;
+                        } else {
+                            e.idle_polls = 0;
+                        }
+                        e.last_cpu = cpu;
+                        if used >= limit {
+                            Some(format!("still running after consuming {} ms of CPU time ({} ms elapsed)", used, e.first.elapsed().as_millis()))
+                        } else if e.idle_polls * POLL_MS >= limit.max(5000) {
+                            Some(format!("blocked (not runnable, no CPU progress) for {} ms", e.idle_polls * POLL_MS))
+                        } else {
+                            None
+                        }
+                    }
+                    // no per-thread clock: wall time with a wide margin
+                    None => {
+                        let el = e.first.elapsed().as_millis() as u64;
+                        if el > limit * 20 { Some(format!("still running after {} ms (no CPU clock available)", el)) } else { None }
+                    }
+                };
+                if let Some(obs) = verdict {
+                    if s.busy.load(Ordering::SeqCst) && s.seq.load(Ordering::SeqCst) == seq {
+                        let input = s.input.lock().unwrap().clone();
+                        let ep = s.ep.load(Ordering::Relaxed);
+                        let mut t = Tally::new();
+                        t.states += 1;
+                        t.evals += 1;
+                        t.outcome("hang");
+                        t.violation(Violation::new(
+                            "call",
+                            json!({"entry": EPS[ep].0, "input": input_json(&input)}),
+                            json!(format!("returns within {} ms of CPU time", limit)),
+                            json!(obs),
+                            "an entry point did not return promptly",
+                        ));
+                        run.merge(t);
+                        run.finish();
+                    }
                 }
             }
         }
@@ -635,8 +704,10 @@ fn heavy_inputs(reps: usize) -> Vec<(usize, Vec<u8>)> {
                 ("scanindex", vec![format!("PKGNAME={}\n", sv), format!("{}=x\n", sv), format!("PKGNAME=a-1\nALL_DEPENDS={}\n", sv), format!("PKGNAME=a-1\nPKG_LOCATION={}\n", sv), format!("PKGNAME=a-1\nMULTI_VERSION={}\n", sv), sv.clone()]),
                 ("digest-name", vec![sv.clone()]),
                 ("metadata", vec![sv.clone(), format!("1{}", sv)]),
-                ("failing-readers", vec![sv.clone(), format!("PKGNAME={}\n", sv)]),
             ];
+            // the failing readers hand out 7 bytes per call and the stream buffer revalidates what
+            // it holds on every write: quadratic in the harness, so short inputs only
+            let shapes: Vec<(&str, Vec<String>)> = if bytes <= 200 { shapes.into_iter().chain([("failing-readers", vec![sv.clone(), format!("PKGNAME={}\n", sv)])]).collect() } else { shapes };
             for (ep, texts) in shapes {
                 for x in texts {
                     v.push((ep_index(ep), x.into_bytes()));
@@ -1089,13 +1160,9 @@ fn supervisor_main(run: &'static Run) -> ! {
                 }
             }
             if !reported {
-                t.violation(Violation::new(
-                    "abort",
-                    json!({"work_items_in_flight": open}),
-                    json!("returns normally"),
-                    json!(format!("exploration child terminated abnormally (status {:?}); the in-flight items did not reproduce it alone", code)),
-                    "the exploration process aborted",
-                ));
+                // an abort that no in-flight item reproduces alone is not a verdict about the library
+                // (out-of-memory kill, signal from outside): machinery fault, exit 2
+                run.fault(&format!("exploration child terminated abnormally (status {:?}) and none of the {} in-flight work items reproduces it alone", code, open.len()));
             }
             run.merge(t);
             run.finish();
@@ -1126,7 +1193,10 @@ fn replay_main(run: &'static Run, doc: &Value) -> ! {
         let status = loop {
             match child.try_wait() {
                 Ok(Some(st)) => break Some(st),
-                Ok(None) if start.elapsed() > Duration::from_secs(15) => {
+                Ok(None)
+                    if proc_cpu(&format!("/proc/{}/stat", child.id())).map(|(cpu, _)| cpu > 15_000).unwrap_or(false)
+                        || start.elapsed() > Duration::from_secs(300) =>
+                {
                     let _ = child.kill();
                     let _ = child.wait();
                     break None;
@@ -1138,7 +1208,7 @@ fn replay_main(run: &'static Run, doc: &Value) -> ! {
         match status {
             Some(st) if st.code() == Some(0) => None,
             Some(st) => Some(Violation::new("call", c.clone(), json!("returns normally"), json!(format!("{}", if st.code() == Some(3) { "panic".to_string() } else { format!("abnormal exit {:?}", st.code()) })), "")),
-            None => Some(Violation::new("call", c.clone(), json!("returns promptly"), json!("no return within 15 s"), "")),
+            None => Some(Violation::new("call", c.clone(), json!("returns promptly"), json!("no return within 15 s of CPU time"), "")),
         }
     };
     let (a, b) = (once(), once());
